@@ -222,6 +222,8 @@ void pbt_run(const Case& cs, Ctx& ctx) {
         const char* kind = relPattern ? "mismatch:relative-no-common" : rootPattern ? "mismatch:relative-root" : "mismatch:relative";
         ctx.fail(kind, "getRelativePath(" + fmt(p) + ", " + fmt(to) + ") = " + fmt(r) + ": from/rel denotes " + nj.show() + ", to denotes " + nt.show());
       }
+      if (relPattern || rootPattern) ctx.count("known_pattern_but_passed");   // stays 0 while the exclusion patterns are exact
+      ctx.count("rel_checked");
     }
     else if (nm == "abs") {
       bool want = (!p.empty() && isSep(p[0])) || (p.size() > 2 && p[1] == ':' && isSep(p[2]));
